@@ -156,6 +156,23 @@ def _deadline(seconds):
     return cm()
 
 
+def _probe_key(cls, p, val):
+    import re
+    return f"{cls.__name__}|{p}|" + re.sub(r" at 0x[0-9a-f]+", "", repr(val))[:40]
+
+
+_REVIEWED = []
+
+
+def _reviewed_failures():
+    if not _REVIEWED:
+        import json
+        import os
+        path = os.path.join(os.path.dirname(os.path.abspath(__file__)), "indomain_fit_failures.json")
+        _REVIEWED.append({e["key"] for e in json.load(open(path))["entries"]} if os.path.exists(path) else set())
+    return _REVIEWED[0]
+
+
 def probe_table(tier):
     obs = []
     for cls in estimators_all():
@@ -183,6 +200,21 @@ def probe_table(tier):
                             m._validate_params()
                         except Exception as e:
                             bad.append({"value": repr(val)[:40], "in_domain": True, "problem": "rejected: " + repr(e)[:100]})
+                            continue
+                        # accepted by validation: the fit itself must go through as well, unless the value is one of the reviewed
+                        # combinations that the 8x2 probe data legitimately cannot serve (more clusters / leaf samples than samples,
+                        # chi2 kernels on negative data, parameters of another kernel, a mask of another length ...:
+                        # contracts/indomain_fit_failures.json, generated on the unchanged tree and read only)
+                        try:
+                            import contextlib
+                            import io
+                            with _deadline(20), contextlib.redirect_stdout(io.StringIO()):        # (verbose=True is an in-domain value)
+                                m.fit(*_fit_args(m, X))
+                        except _Deadline:
+                            bad.append({"value": repr(val)[:40], "in_domain": True, "problem": "fit on 8 samples still running after 20 s"})
+                        except Exception as e:
+                            if _probe_key(cls, p, val) not in _reviewed_failures():
+                                bad.append({"value": repr(val)[:40], "in_domain": True, "problem": "accepted by validation but fit raised " + repr(e)[:120]})
                     else:
                         try:
                             with _deadline(20):
